@@ -79,19 +79,42 @@ partial def objOfJson (j : Json) : Except String RefName.Obj := do
     | s => throw s!"bad object kind {s}"
   pure (.mk kind attrs)
 
-/-- one registration on a reference match: `{"var":"ref","members":["Finished"]|null,"obj":obj|null}` (`obj` null = the
-    variable is not in the context) -> `{"ok":name}` / `{"err":exception class}` computed by `RefName.nameOf` -/
+/-- one registration on a match element whose name is computed through an object:
+    reference   `{"var":"ref","members":["Finished"]|null,"obj":obj|null}` (`obj` null = the variable is not in the context),
+    by name     `{"var":null,"name":"some_flow","type":"flow"|"action"|…,"members":["Start"],"known":bool}` (`known` = the name
+                is a key of `state.flow_configs`)
+    -> `{"ok":name}` / `{"err":exception class}` computed by `RefName.nameOfSpec` (case 1 = `RefName.nameOf`), plus
+       `"dispatch": {"ok":name} / {"err":class}` computed by `RefName.dispatchNameOfSpec` (the name of `get_event_from_element`) -/
 def refnameOne (j : Json) : Except String Json := do
-  let v ← (← j.getObjVal? "var").getStr?
+  -- `change_args`: the member arguments contain `arguments` and were evaluated (only `Change` looks at them)
+  let changeArgs := match j.getObjVal? "change_args" with | .ok (.bool b) => b | _ => false
+  let res (r : Except RefName.Err String) : Json := match r with
+    | .ok nm => Json.mkObj [("ok", .str nm)]
+    | .error e => Json.mkObj [("err", .str e.cls)]
+  -- the indexer's name (`get_event_name_from_element`) and, under "dispatch", the dispatcher's (`get_event_from_element`)
+  let answer (flows : List String) (ctx : RefName.Ctx) (sp : RefName.ElemSpec) : Json :=
+    (res (RefName.nameOfSpec flows ctx sp)).setObjVal! "dispatch" (res (RefName.dispatchNameOfSpec changeArgs flows ctx sp))
   let members ← match j.getObjVal? "members" with
     | .ok (.arr ms) => do pure (some (← ms.toList.mapM fun m => m.getStr?))
     | _ => pure none
-  let ctx ← match j.getObjVal? "obj" with
-    | .ok .null | .error _ => pure []
-    | .ok o => do pure [(v, ← objOfJson o)]
-  match RefName.nameOf ctx { var := v, members := members } with
-  | .ok nm => pure (Json.mkObj [("ok", .str nm)])
-  | .error e => pure (Json.mkObj [("err", .str e.cls)])
+  match j.getObjVal? "var" with
+  | .ok (.str v) =>
+    let ctx ← match j.getObjVal? "obj" with
+      | .ok .null | .error _ => pure []
+      | .ok o => do pure [(v, ← objOfJson o)]
+    pure (answer [] ctx { varName := some v, members := members })
+  | _ =>
+    let name ← match j.getObjVal? "name" with
+      | .ok (.str n) => pure (some n)
+      | _ => pure none
+    let ty := match j.getObjVal? "type" with
+      | .ok (.str "flow") => RefName.SpecType.flow
+      | .ok (.str "action") => RefName.SpecType.action
+      | .ok (.str "event") => RefName.SpecType.event
+      | _ => RefName.SpecType.other
+    let known := match j.getObjVal? "known" with | .ok (.bool b) => b | _ => false
+    let flows := match name with | some n => if known then [n] else [] | none => []
+    pure (answer flows [] { varName := none, name := name, specType := ty, members := members })
 
 /-- `{"m":"C09.replay","segments":[[op,…],[op,…],…]}`: the operations recorded between two observation
     points (one segment per external event); answers with the model state after every segment. -/
